@@ -311,6 +311,23 @@ pub fn generated_docs(seed: u64, n: usize) -> Vec<Vec<u8>> {
     out
 }
 
+/// Scalar spellings at the edges of the numeric / boolean / null / tagged
+/// grammars (multi-byte characters right after a recognised prefix, empty digit
+/// runs, overlong values), to be placed in typed contexts.
+pub const EDGE_SCALARS: &[&str] = &[
+    "00", "007", "00é", "00\u{1F600}", "0x", "0xg", "0xé", "0Xé", "0o8", "0oé", "0b2", "0b", "0bé", "-00", "+00é", "-0xé", "1_", "_1", "1__0",
+    "0é", "-", "+", "-é", ".", "..", ".é", "1e", "1e+", "1eé", ".inf", ".infé", "-.iné", "-.é", "~é", "nullé", "trué", "yes", "é",
+    "0x7FFFFFFFFFFFFFFFF", "99999999999999999999999", "-99999999999999999999999", "340282366920938463463374607431768211456", "1e400",
+    "0.1é", "12:30", "12:é", "1:2:3:4", "-1:é", "!!int é", "!!int", "!!float é", "!!binary é", "!!binary =", "!!binary ====", "!!binary é===",
+    "!!bool é", "!!null é", "!!str", "!!timestamp é", "deg(é)", "rad(", "(é", "1+é", "piй", "taué", "deg(1)é", "1 2", "'é", "\"\\xé\"",
+    "\"\\u00\"", "\"\\U0011FFFF\"", "\"\\ud800\"", "\u{FEFF}", "a\u{FEFF}", "\u{85}", "\u{2028}x", "\u{7f}",
+];
+
+pub const EDGE_CONTEXTS: &[&str] = &[
+    "@", "n: @", "f: @", "b: @", "c: @", "s: @", "v: [@]", "t: [@, @]", "y: @", "e: @", "m: {k: @}", "- @", "@: 1", "? @", "k1: @", "u: @",
+    "New: @", "a: @", "<<: @", "- [@, 1]",
+];
+
 // ------------------------------------------------------------------ mutations
 
 pub const MUTATIONS: [&str; 14] = [
